@@ -123,6 +123,22 @@ def objective_values(program, skw=None):
     return values, kind, timings, by_timing, stats, built, len(leaves)
 
 
+def nonlinear_objective(program):
+    """True if the optimised quantity contains a product of unknowns: a cost indicator over a worker whose cost
+    function is not constant (the cost of a busy interval is the integral of the function over it). z3's optimising
+    solver is not complete for such objectives (recorded finding C07-builtin-optimizer-not-optimal-on-nonlinear-cost):
+    whether it returns the optimum depends on what the process solved before, so that single answer is not judged
+    for optimality; the repeated-solve history of the finding's witness is."""
+    dd = dsl.decl_by_id(program)
+    for d in program["decls"]:
+        if d["k"] == "new" and d["cls"] in ("IndicatorResourceCost", "ObjectiveMinimizeResourceCost"):
+            for r in d["args"].get("list_of_resources", []):
+                cost = (dd[r["$"]]["args"] or {}).get("cost")
+                if cost is not None and cost["$new"]["cls"] != "ConstantFunction":
+                    return True
+    return False
+
+
 def run_loop(program, skw, choices, values, unknown_at=(), costs=None, default_cost=0.0):
     """One execution of solve() under the controlled solver; candidates = one per objective value."""
     import processscheduler as ps
@@ -193,6 +209,7 @@ def job(j):
             res["runs"] += 1
             res["points"] += len(env.points)
             res["checks"] += env.check_index
+            res["real_unknowns"] = res.get("real_unknowns", 0) + getattr(env, "real_unknowns", 0)
             incumbents = [p["enabled"][p["chosen"]] for p in env.points if p["enabled"]]
             res["outcomes"].add((tuple(incumbents), env.value if env.sol else None, cfg.get("_int", "none"), cfg.get("max_iter")))
             if env.err:
@@ -256,7 +273,7 @@ def job(j):
         # (4) z3.Optimize
         if n_obj == 1:
             env = run_loop(program, {"optimizer": "optimize"}, None, None)
-            judge(env, {"optimizer": "optimize"}, False)
+            judge(env, {"optimizer": "optimize"}, nonlinear_objective(program))
         else:
             env = run_loop(program, {"optimizer": "optimize", "optimize_priority": "weight"}, None, None)
             judge(env, {"optimizer": "optimize", "optimize_priority": "weight"}, False)
@@ -278,6 +295,18 @@ def replay(inst):
     program = inst["program"]
     values, kind, timings, by_timing, stats, built, nleaves = objective_values(program)
     best = min(values) if kind == "min" else max(values)
+    if inst.get("repeat"):
+        # history: the same problem is declared and solved again and again in one process (fresh problem and solver
+        # objects each time); every answer of a solver that was allowed to finish must be optimal
+        seen = []
+        for k in range(inst["repeat"]):
+            env = run_loop(program, inst["solver"], None, None)
+            seen.append(env.value if env.sol else None)
+            if env.err or not env.sol or env.value != best:
+                break
+        bad = seen[-1] != best
+        print(json.dumps({"violation": inst["what"] if bad else None, "best": best, "values_returned": seen, "failing_round": len(seen) if bad else None}))
+        return 1 if bad else 0
     envd = inst.get("env") or {}
     costs = {int(k): v for k, v in (envd.get("_costs") or {}).items()}
     steer = inst["choices"] or envd
@@ -336,7 +365,17 @@ def confirm(inst):
 def witness(entry):
     import io
     import contextlib
+    import subprocess
+    import sys
+    import os
 
+    if entry["witness"].get("repeat"):
+        # a history that depends on what the process did before: always re-executed in a fresh interpreter
+        p = subprocess.run([sys.executable, "-m", "props.hist_replay", "C07"], input=json.dumps(entry["witness"]), capture_output=True, text=True,
+                           cwd=run.VERIF, env=dict(os.environ, PYTHONHASHSEED="0"), timeout=900)
+        if p.returncode not in (0, 1):
+            raise RuntimeError(p.stderr[-400:])
+        return p.returncode == 1
     with contextlib.redirect_stdout(io.StringIO()):
         return replay(entry["witness"]) == 1
 
@@ -355,6 +394,7 @@ def main(tier):
                 traces_validated_against_impl=r["runs"], admitted_leaves=r["e1"]["admitted"])
         chk.cov["optimiser_runs"] = chk.cov.get("optimiser_runs", 0) + r["runs"]
         chk.cov["model_choice_points"] = chk.cov.get("model_choice_points", 0) + r["points"]
+        chk.cov["spurious_unknowns_retried"] = chk.cov.get("spurious_unknowns_retried", 0) + r.get("real_unknowns", 0)
         nontrivial += r["outcomes"]
         chk.family(r["family"], runs=r["runs"], chains=r.get("chains", 0), values=len(r["e1"]["values"]), distinct_outcomes=r["outcomes"])
         if r.get("sample"):
